@@ -1,7 +1,7 @@
 (* C12/Driver.v — entry point of the correspondence run (extracted to OCaml).
    The harness polls the real futures in the order of the case's schedule and then
    round-robin until every task has finished; the model does the same. *)
-From RM Require Import C12.Model C12.WakeModel.
+From RM Require Import C12.Model C12.WakeModel C12.DropModel C12.JoinModel C12.FileModel.
 
 Definition script := (nat * outcome * nat)%type.     (* suspensions, answer, stats leaf id *)
 Definition dflt : script := (0, ONotFound, 0).
@@ -62,6 +62,51 @@ Definition run_wcase (ts : list (list key)) (scripts : list script) (nleaf : nat
      w_results := map (fun t => results (sh s2) t) (seq 0 (ntasks c));
      w_req := requested s2; w_proc := processed s2;
      w_stats := stats_list nleaf (stats (sh s2)) |}.
+
+(* mode 3: wake-driven executor with drops of waiting tasks (picks >= 100) *)
+Definition run_dcase (ts : list (list key)) (scripts : list script) (nleaf : nat) (picks : list nat) : c12_wout :=
+  let c := mk_config ts scripts in
+  let '(c', w, trace, st) := dexec c (S (2 * work c + ntasks c) + length picks) picks (winit c) [] in
+  let s2 := base w in
+  {| w_trace := trace;
+     w_lost := match st with WLost => true | _ => false end;
+     w_fuel := match st with WFuel => true | _ => false end;
+     w_log := calls (sh s2);
+     w_results := map (fun t => results (sh s2) t) (seq 0 (ntasks c));
+     w_req := requested s2; w_proc := processed s2;
+     w_stats := stats_list nleaf (stats (sh s2)) |}.
+
+(* mode 4: join_all with the parent's shared waker; w_trace carries the number of parent polls *)
+Definition run_jcase (ts : list (list key)) (scripts : list script) (nleaf : nat) : c12_wout :=
+  let c := mk_config ts scripts in
+  let '(w, r, st) := jexec c (S (work c)) (winit c) 0 in
+  let s2 := base w in
+  {| w_trace := [r];
+     w_lost := match st with WLost => true | _ => false end;
+     w_fuel := match st with WFuel => true | _ => false end;
+     w_log := calls (sh s2);
+     w_results := map (fun t => results (sh s2) t) (seq 0 (ntasks c));
+     w_req := requested s2; w_proc := processed s2;
+     w_stats := stats_list nleaf (stats (sh s2)) |}.
+
+(* mode 2: concurrent locate_file calls on one HttpSymbolSupplier with one symbol server;
+   per file key: lookup exists, suspensions of the fetch, file present on the server *)
+Definition fscript := (bool * nat * bool)%type.
+Definition run_fcase (ts : list (list (nat * nat))) (fscripts : list fscript) : c12_wout :=
+  let fc := {| ftasks := map (map (fun p => (fst p, fkind_of (snd p)))) ts;
+               local_hit := fun _ => false;
+               has_lookup := fun fk => fst (fst (nth (enc fk) fscripts (false, 0, false)));
+               servers := [fun fk => (snd (fst (nth (enc fk) fscripts (false, 0, false))),
+                                      snd (nth (enc fk) fscripts (false, 0, false)))] |} in
+  let c := to_config fc in
+  let '(s2, rounds) := drain c (S (work c)) (init c) 0 in
+  {| w_trace := [rounds];
+     w_lost := false;
+     w_fuel := negb (all_done c s2);
+     w_log := calls (sh s2);
+     w_results := map (fun t => results (sh s2) t) (seq 0 (ntasks c));
+     w_req := requested s2; w_proc := processed s2;
+     w_stats := [] |}.
 
 (* glue for the OCaml driver (decimal text <-> nat goes through Coq's Z; see ocaml/zconv.ml) *)
 From Coq Require Import ZArith.
